@@ -129,8 +129,8 @@ func init() {
 
 func init() {
 	Properties["C13"] = PropSpec{
-		Rules:       []Rule{Narrow},
-		Explanation: "NARROW: every numeric ssa.Convert of the package is classified; one that can change the mathematical value (float→integer, signed↔unsigned, narrowing) must be dominated by an integrality test plus a range test of its operand (possibly packaged in a one-parameter predicate of the package, whose true-returning paths are inspected), or be unreachable for every Go numeric carrier type (abstract D-DYN runs from MaximumNativeType/MinimumNativeType/MultipleOfNativeType/IsValueValidAgainstRange/numberValidator.Validate over float32/64, int*, uint*: the as* helpers only take their value-preserving branch). The kind-specific reflect getters are legal for the kinds that reach them (D-DYN). json.Number: Int64() is selected exactly on Type.Contains(integer), Float64() on its negation, and both error edges add an error.",
+		Rules:       []Rule{Narrow, Orderings, OrderingsTyped},
+		Explanation: "ORDERINGS: MaximumNativeType/MinimumNativeType/MultipleOfNativeType are evaluated by constant propagation (through reflect.ValueOf, the kind switches, the as* helpers, the exactness guards and the Int/Uint/float comparators) for every Go numeric carrier type × a grid of values × a grid of constraints in halves from -3.5 to 4.5 × exclusive on/off, and must return an error exactly when exact arithmetic says so (arithmetic folded on exact rationals: float rounding is not modelled); the Int/Uint/float comparators and Min/MaxItems, MultipleOfInt/Uint, RequiredNumber agree with their definitions on every ordering of a small grid. NARROW: every numeric ssa.Convert of the package is classified; one that can change the mathematical value (float→integer, signed↔unsigned, narrowing) must be dominated by an integrality test plus a range test of its operand (possibly packaged in a one-parameter predicate of the package, whose true-returning paths are inspected), or be unreachable for every Go numeric carrier type (abstract D-DYN runs from MaximumNativeType/MinimumNativeType/MultipleOfNativeType/IsValueValidAgainstRange/numberValidator.Validate over float32/64, int*, uint*: the as* helpers only take their value-preserving branch). The kind-specific reflect getters are legal for the kinds that reach them (D-DYN). json.Number: Int64() is selected exactly on Type.Contains(integer), Float64() on its negation, and both error edges add an error.",
 		NotDecided:  "Exactness of the float arithmetic itself (MultipleOf's division and IsFloat64AJSONInteger tolerance), values beyond ±2^53, decimal fractions.",
 		Assumptions: []string{"numbers within ±2^53 (C13), so integer→float64 is exact", "int is 64 bits wide", trustDeps},
 	}
@@ -155,7 +155,7 @@ func init() {
 	}
 	anyDomain := append(append([]atom{}, goTypedDomain...), aSliceIface, aMapIface, other(reflect.Struct), other(reflect.Ptr), other(reflect.Map), other(reflect.Bool), other(reflect.Func), other(reflect.Interface))
 	Properties["C14"] = PropSpec{
-		Rules: []Rule{Pure, Cow,
+		Rules: []Rule{Pure, Orderings, Cow,
 			PanicInventory(valueHelpers, helperEntries, anyDomain, "any Go value: nil, every basic kind, named strings, slices, maps, structs, pointers", "no-applies", "helpers"),
 			NilRule(func(p *core.Prog) []*ssa.Parameter {
 				var out []*ssa.Parameter
@@ -188,14 +188,14 @@ func init() {
 func init() {
 	Properties["C16"] = PropSpec{
 		Rules: []Rule{Chain, EnumConvert, Keywords("ParamValidator", simpleKeywords, "param_ctor_calls"), Keywords("HeaderValidator", simpleKeywords, "header_ctor_calls"), Keywords("itemsValidator", simpleKeywords, "items_ctor_calls"), KeywordGuard,
-			Narrow},
+			Narrow, Orderings},
 		Explanation: "Structural necessary conditions of the simple-schema semantics: CHAIN — Param/Header/items validators hold the same ordered groups (type, string, format, number, slice, enum), run a group only on the true edge of its own Applies, merge every non-nil group result, return at once for a nil value, and basicSliceValidator validates element i with a fresh items validator built from its Items; KEYWORDS — each of the 15 simple-schema constraints of the parameter/header/items definition reaches a sub-validator field that is read while validating; APPLIES-SOURCE — every definition type that can arrive as the source of Applies at a dispatcher is handled by the Applies of every group it holds (a missing case silently disables the group, e.g. for items of items), and Applies decides on the validator's own keyword, consulting the source's only as a fallback when its own is empty; KEYWORD-GUARD; ENUM-CONVERT; NARROW (shared numeric path, see C13); panic-freedom for typed Go values via C06/C07's D-DYN.",
 		NotDecided:  "Per-keyword predicates; the type-inference table of schemaInfoForType; the meaning of formats.",
 		Assumptions: []string{trustDeps},
 	}
 	Properties["C01"] = PropSpec{
-		Rules:       []Rule{Keywords("SchemaValidator", schemaKeywords, "schema_ctor_calls"), NilPath, KeywordGuard, EnumConvert, KConsistent, OneShot, PoolCtor, MapOrder("(*SchemaValidator).Validate", "AgainstSchema")},
-		Explanation: "Structural necessary conditions of draft-4 agreement, decided on every path: KEYWORDS — each of the 27 supported keywords of the schema is handed by newSchemaValidator to a sub-validator constructor, kept (itself or something built from it) in a field, and that field is read by the sub-validator's Validate/Applies (a keyword that is dropped or stored-but-never-read is a skipped constraint); NILPATH — keyword groups whose Applies does not depend on the kind must also run for a nil instance (one genuine violation is a known finding); KEYWORD-GUARD — a constraint helper called from a Validate method is guarded only by the presence of its keyword, the type assertion and earlier outcomes, never by the instance value; ENUM-CONVERT — enum membership compares the instance converted to the member's type with that member; K-CONSISTENT/MEMBER-GUARD — every member (property, pattern/additional property, list/tuple/additional item) is validated against its schema under its own key and not filtered by its value or name; MAP-ORDER — no order-dependent early exit from map ranges in the schema validators; D-BOUND on the element loops (via C06); ONESHOT-EQ — AgainstSchema is NewSchemaValidator(...).Validate plus HasErrors; POOL-CTOR — no constraint field of a recycled validator is left from a previous schema.",
+		Rules:       []Rule{Keywords("SchemaValidator", schemaKeywords, "schema_ctor_calls"), NilPath, Counting, KeywordGuard, EnumConvert, KConsistent, OneShot, PoolCtor, MapOrder("(*SchemaValidator).Validate", "AgainstSchema")},
+		Explanation: "Structural necessary conditions of draft-4 agreement, decided on every path: KEYWORDS — each of the 27 supported keywords of the schema is handed by newSchemaValidator to a sub-validator constructor, kept (itself or something built from it) in a field, and that field is read by the sub-validator's Validate/Applies (a keyword that is dropped or stored-but-never-read is a skipped constraint); COUNTING — oneOf/allOf are decided exactly by constant-propagating the post-loop region for every value of the counter of valid alternatives (0..3) and number of members, anyOf returns on the first valid alternative and errs after the loop otherwise, not errs exactly on the IsValid() edge of the sub-result, the counter is incremented once per valid alternative; NILPATH — keyword groups whose Applies does not depend on the kind must also run for a nil instance (one genuine violation is a known finding); KEYWORD-GUARD — a constraint helper called from a Validate method is guarded only by the presence of its keyword, the type assertion and earlier outcomes, never by the instance value; ENUM-CONVERT — enum membership compares the instance converted to the member's type with that member; K-CONSISTENT/MEMBER-GUARD — every member (property, pattern/additional property, list/tuple/additional item) is validated against its schema under its own key and not filtered by its value or name; MAP-ORDER — no order-dependent early exit from map ranges in the schema validators; D-BOUND on the element loops (via C06); ONESHOT-EQ — AgainstSchema is NewSchemaValidator(...).Validate plus HasErrors; POOL-CTOR — no constraint field of a recycled validator is left from a previous schema.",
 		NotDecided:  "Whether each keyword's predicate agrees with draft 4 (oneOf counting, integer-vs-number, enum equality across numeric types, regexp search semantics, format registries…): value-level, out of reach of static analysis; the checks decide that no keyword group is skipped, mis-keyed or conditioned on the wrong thing.",
 		Assumptions: []string{trustDeps},
 	}
